@@ -565,7 +565,27 @@ func TestWorker(t *testing.T) {
 		}
 		return r, e.Violation
 	}
+	if spec.Property == "C19" && spec.Replay == nil {
+		runC19(t, spec, out, e)
+		return
+	}
 	if spec.Replay != nil {
+		var probe struct {
+			Gun string `json:"gun"`
+		}
+		_ = json.Unmarshal(spec.Replay, &probe)
+		if probe.Gun != "" {
+			var c C19Cell
+			_ = json.Unmarshal(spec.Replay, &c)
+			r := &c19run{cell: c}
+			e.Scenario = r.scenario
+			res := e.RunOne(nil, -1, nil)
+			fmt.Printf("cell %s\nend=%s sent=%v samples=%d run err=%v panic=%q\n", c.Name(), res.End, r.sent, len(r.samples), r.res.Err, r.res.Panic)
+			if res.Err != nil {
+				out.Violate("C19|replay", res.Err.Error(), c)
+			}
+			return
+		}
 		var c Cell
 		if err := json.Unmarshal(spec.Replay, &c); err != nil {
 			t.Fatal(err)
